@@ -217,6 +217,44 @@ func init() {
 		}
 		shapes := enumTailShapes(depth)
 		idx := 0
+		if mode == "sem" {
+			// the name of the running function re-bound to ANOTHER closure made from the same definition:
+			// the call in tail position is then not a self call (the two closures captured different k)
+			ctxs := []func(e node) node{
+				func(e node) node { return e },
+				func(e node) node { return nLet("let", []bind{{"z", nInt(1)}}, e) },
+				func(e node) node { return nBegin(nApp("tr", nInt(7), nSym("n")), e) },
+				func(e node) node { return nScope(e) },
+				func(e node) node { return nAnd(nInt(1), e) },
+			}
+			for ci, ctx := range ctxs {
+				for rb := 0; rb < 2; rb++ {
+					for n := 0; n <= 3; n += 3 {
+						if !c.mine(idx) {
+							idx++
+							continue
+						}
+						inner := nDefn("f", strict("n"), "", nCond([]clause{{nApp("==", nSym("n"), nInt(0)), nApp("tr", nInt(1), nSym("k"))}},
+							ctx(nCall(nSym("f"), nApp("-", nSym("n"), nInt(1))))))
+						rebind := nSet("f", nSym("other"))
+						if rb == 1 {
+							rebind = nDef("f", nSym("other"))
+						}
+						mk := nDefn("mk", strict("k", "other"), "", inner,
+							nLet("let", []bind{{"me", nSym("f")}}, nCond([]clause{{nApp("not", nApp("null?", nSym("other"))), rebind}}, nNil()), nSym("me")))
+						if rb == 1 {
+							// def inside the let would bind the let's own scope: re-bind before the let instead
+							mk = nDefn("mk", strict("k", "other"), "", inner, nDef("me", nSym("f")),
+								nCond([]clause{{nApp("not", nApp("null?", nSym("other"))), rebind}}, nNil()), nSym("me"))
+						}
+						prog := []node{mk, nDef("f1", nCall(nSym("mk"), nInt(1), nNil())), nDef("f2", nCall(nSym("mk"), nInt(2), nSym("f1"))),
+							nApp("list", nCall(nSym("f2"), nInt(n)), nCall(nSym("f1"), nInt(n)))}
+						w.write(runSem(fmt.Sprintf("tail-instance-%d-%d-%d", ci, rb, n), "tail:instance", prog, renderProgram(prog, nil)))
+						idx++
+					}
+				}
+			}
+		}
 		for si, sh := range shapes {
 			if mode == "sem" {
 				for n := 0; n <= 3; n++ {
